@@ -565,6 +565,10 @@ func (m *Module) validateFunctionWithMaxStackValues(
 				if err := enabledFeatures.RequireEnabled(experimental.CoreFeaturesTailCall); err != nil {
 					return fmt.Errorf("%s invalid as %v", OpcodeTailCallReturnCallName, err)
 				}
+				// The callee returns to the caller of this function, so it must have the same results.
+				if !bytes.Equal(funcType.Results, functionType.Results) {
+					return fmt.Errorf("type mismatch on %s operation result type", opcodeName)
+				}
 				// Same formatting as OpcodeEnd on the outer-most block
 				if err := valueTypeStack.requireStackValues(false, "", functionType.Results, false); err != nil {
 					return err
@@ -627,6 +631,10 @@ func (m *Module) validateFunctionWithMaxStackValues(
 			if op == OpcodeTailCallReturnCallIndirect {
 				if err := enabledFeatures.RequireEnabled(experimental.CoreFeaturesTailCall); err != nil {
 					return fmt.Errorf("%s invalid as %v", OpcodeTailCallReturnCallIndirectName, err)
+				}
+				// The callee returns to the caller of this function, so it must have the same results.
+				if !bytes.Equal(funcType.Results, functionType.Results) {
+					return fmt.Errorf("type mismatch on %s operation result type", opcodeName)
 				}
 				// Same formatting as OpcodeEnd on the outer-most block
 				if err := valueTypeStack.requireStackValues(false, "", functionType.Results, false); err != nil {
